@@ -1313,6 +1313,92 @@ def _split_tuple_assigns(fn: ast.FunctionDef, records) -> int:
   return n
 
 
+# --------------------------------------------------------------------------- constant tests left by inlining
+def _chain(e: ast.AST) -> Optional[str]:
+  parts = []
+  while isinstance(e, ast.Attribute):
+    parts.append(e.attr)
+    e = e.value
+  if isinstance(e, ast.Name):
+    parts.append(e.id)
+    return '.'.join(reversed(parts))
+  return None
+
+
+def _const_test(t: ast.AST) -> Optional[bool]:
+  """Truth value of a comparison between two enum-member chains (`X.State.ACTIVE == X.State.ACTIVE`) or constants, as
+  left behind when a helper is inlined with a literal argument; None when not decidable."""
+  if isinstance(t, ast.Constant) and isinstance(t.value, bool):
+    return t.value
+  if isinstance(t, ast.UnaryOp) and isinstance(t.op, ast.Not):
+    v = _const_test(t.operand)
+    return None if v is None else not v
+  if isinstance(t, ast.BoolOp):
+    vs = [_const_test(v) for v in t.values]
+    if isinstance(t.op, ast.And):
+      return False if any(v is False for v in vs) else True if all(v is True for v in vs) else None
+    return True if any(v is True for v in vs) else False if all(v is False for v in vs) else None
+  if not (isinstance(t, ast.Compare) and len(t.ops) == 1):
+    return None
+  l, r, op = t.left, t.comparators[0], t.ops[0]
+
+  def member(e):
+    c = _chain(e)
+    return c if c and '.' in c and c.rsplit('.', 1)[1].isupper() else None
+
+  def same(a, b) -> Optional[bool]:
+    if isinstance(a, ast.Constant) and isinstance(b, ast.Constant):
+      return a.value == b.value and type(a.value) is type(b.value)
+    ma, mb = member(a), member(b)
+    if ma and mb:
+      if ma == mb:
+        return True
+      if ma.rsplit('.', 1)[0] == mb.rsplit('.', 1)[0]:
+        return False
+    return None
+  if isinstance(op, (ast.Eq, ast.Is, ast.NotEq, ast.IsNot)):
+    v = same(l, r)
+    return None if v is None else v if isinstance(op, (ast.Eq, ast.Is)) else not v
+  if isinstance(op, (ast.In, ast.NotIn)) and isinstance(r, (ast.Tuple, ast.List, ast.Set)):
+    vs = [same(l, x) for x in r.elts]
+    if any(v is True for v in vs):
+      return isinstance(op, ast.In)
+    if all(v is False for v in vs):
+      return isinstance(op, ast.NotIn)
+  return None
+
+
+def _fold_constant_tests(fn: ast.FunctionDef) -> int:
+  n = 0
+
+  def do_block(stmts: List[ast.stmt]) -> List[ast.stmt]:
+    nonlocal n
+    out: List[ast.stmt] = []
+    for st in stmts:
+      for fld in ('body', 'orelse', 'finalbody'):
+        b = getattr(st, fld, None)
+        if isinstance(b, list) and not isinstance(st, (ast.FunctionDef, ast.ClassDef)):
+          setattr(st, fld, do_block(b))
+      if isinstance(st, ast.Try):
+        for h in st.handlers:
+          h.body = do_block(h.body)
+      if isinstance(st, ast.If):
+        v = _const_test(st.test)
+        if v is not None:
+          n += 1
+          out.extend(st.body if v else st.orelse)
+          continue
+      out.append(st)
+    return out if (out or not stmts) else [ast.copy_location(ast.Pass(), stmts[0])]
+
+  fn.body = do_block(fn.body)
+  if n:
+    for x in ast.walk(fn):
+      if isinstance(x, ast.Pass) and not hasattr(x, 'lineno'):
+        ast.copy_location(x, fn)
+  return n
+
+
 # --------------------------------------------------------------------------- filter loops -> comprehensions
 _PURE_FUNCS = {'len', 'isinstance', 'bool', 'int', 'float', 'str', 'tuple', 'set', 'frozenset', 'sorted', 'min', 'max', 'abs',
                'getattr', 'hasattr', 'type', 'id'}
@@ -1506,6 +1592,8 @@ def normalise(tree: ast.Module, exclude: Optional[Set[str]] = None) -> int:
   records = _record_classes(tree)
   for x in ast.walk(tree):
     if isinstance(x, ast.FunctionDef):
+      if getattr(tree, '_vz_any_inlined', True):
+        n += _fold_constant_tests(x)
       n += _split_tuple_assigns(x, records)
       if records:
         n += _propagate_name_aliases(x)
